@@ -3,7 +3,10 @@
 
 package rfmt
 
-import "reflect"
+import (
+	"reflect"
+	"sync"
+)
 
 // VerifResetGlobals clears the two process-wide registries (native
 // replays run many harnesses in one process; the symbolic engine starts
@@ -11,4 +14,6 @@ import "reflect"
 func VerifResetGlobals() {
 	redactErrorFn = nil
 	safeTypeRegistry = map[reflect.Type]bool{}
+	// a fresh printer pool: no state carried over from earlier replays
+	ppFree = sync.Pool{New: func() interface{} { return new(pp) }}
 }
